@@ -90,7 +90,6 @@ def main(ctx, args):
         "Closure environments and ExternalFn function pointers are not modelled (the conversion never inspects them)",
         "numbers are compared as 64-bit patterns, strings as UTF-8 bytes",
     ]
-    known = load_known("C20")
     if not extract(ctx):
         ctx.finish()
     proved = prove(ctx, MODULES)
@@ -144,18 +143,14 @@ def main(ctx, args):
                                             "Array/Tuple/Record (incl. empty), TaggedUnion(0|MAX), Store")
         ctx.coverage["exhaustive"] = False
     # ---- decide
-    known_classes = {k["class"]: k for k in known if "class" in k}
-    new_fail, known_hits, disagree = [], collections.Counter(), []
+    new_fail, disagree = [], []
     for pr in problems:
         if pr["kind"] != "case":
             ctx.violation(f"{pr['kind']} in stream {pr.get('stream')}", pr, found_input=False)
             continue
         if pr["verdict"] not in ("ok", "ok-refused"):
-            cls = pr["verdict"].split(":", 1)[-1]
-            # a known class only covers cases the model predicts (model and code agree on them)
-            if cls in known_classes and pr["agree"]:
-                known_hits[known_classes[cls]["id"]] += 1
-                continue
+            # every property failure is a violation (no class of failures is listed as known any more: an error value
+            # that crosses and comes back as Unit — verdict `errorv-to-unit`, former finding F9 — must be refused)
             new_fail.append(pr)
         elif not pr["agree"]:
             disagree.append(pr)
@@ -173,12 +168,6 @@ def main(ctx, args):
     if not proved and not new_fail:
         ctx.violation("proof obligation broken: " + "; ".join(ctx._broken), {"stage": "prove", "theorems": ctx._broken,
                       "lake": getattr(ctx, "_lake_errors", "")}, found_input=False)
-    for k in known:
-        n = known_hits.get(k["id"], 0)
-        if n or args.replay is None:
-            ctx.known_finding(f"{k['id']} {k['what']} (cases hit this run: {n})")
-            if n == 0 and args.replay is None:
-                ctx.notes.append(f"known finding {k['id']} did not reproduce in this run")
     ctx.coverage.update({
         "evaluations": stats["evaluations"],
         "distinct_nontrivial": len(stats["distinct"]),
